@@ -90,6 +90,81 @@ class LazyDisk:
 
 _case_no = [0]
 
+
+class _Done(Exception):
+    pass
+
+
+class _FakeUdp:
+    def __init__(self) -> None:
+        self.inq: list[bytes] = []
+        self.out: list[bytes] = []
+
+    def recvfrom(self, n):
+        if not self.inq:
+            raise _Done()
+        return self.inq.pop(0), ("client", 1)
+
+    def sendto(self, b, addr):
+        self.out.append(b)
+
+    def close(self):
+        pass
+
+
+class ViaServer:
+    """Routes every request through the real server.LocalServer.start handler and the api codec (fake datagram socket)."""
+
+    def __init__(self, manager):
+        import cascade.shm.api as api
+        import cascade.shm.server as server
+
+        self.api = api
+        self.srv = object.__new__(server.LocalServer)
+        self.srv.sock = _FakeUdp()
+        self.srv.manager = manager
+
+    def _rt(self, msg):
+        self.srv.sock.inq.append(self.api.ser(msg))
+        try:
+            self.srv.start()
+        except _Done:
+            pass
+        if len(self.srv.sock.out) != 1:
+            raise RuntimeError(f"server sent {len(self.srv.sock.out)} responses to one request")
+        return self.api.deser(self.srv.sock.out.pop())
+
+    @staticmethod
+    def _raise(err: str):
+        if "KeyError" in err:
+            raise KeyError(err)
+        raise RuntimeError(err)
+
+    def add(self, key, size, deser_fun):
+        r = self._rt(self.api.AllocateRequest(key=key, l=size, deser_fun=deser_fun))
+        if isinstance(r, self.api.OkResponse):
+            self._raise(r.error)
+        return r.shmid, r.error
+
+    def get(self, key):
+        r = self._rt(self.api.GetRequest(key=key))
+        if isinstance(r, self.api.OkResponse):
+            self._raise(r.error)
+        return r.shmid, r.l, r.rdid, r.deser_fun, r.error
+
+    def close_callback(self, key, rdid):
+        r = self._rt(self.api.CloseCallback(key=key, rdid=rdid))
+        if r.error:
+            self._raise(r.error)
+
+    def purge(self, key):
+        r = self._rt(self.api.PurgeRequest(key=key))
+        if r.error:
+            self._raise(r.error)
+
+    def free_space(self) -> int:
+        return self._rt(self.api.FreeSpaceRequest()).free_space
+
 # the harness unlinks every segment it creates itself; the tracker process would only add "KeyError" noise for segments the store
 # unlinks and unregisters a second time
 import multiprocessing.resource_tracker as _rt  # noqa: E402
@@ -127,13 +202,13 @@ def histories(draw, max_ops: int = 50):
             ops.append([k, draw(st.sampled_from(["ms", "ms", "min", "16min"]))])
         else:
             ops.append([k])
-    return {"capacity": cap, "ops": ops}
+    return {"capacity": cap, "ops": ops, "via_server": draw(st.integers(0, 2)) == 0}
 
 
 # ------------------------------------------------------------------------------------------------ machine
 
 class Machine:
-    def __init__(self, capacity: int, known_f20: bool = False):
+    def __init__(self, capacity: int, known_f20: bool = False, via_server: bool = False):
         _case_no[0] += 1
         self.prefix = f"v{os.getpid() % 100000}x{_case_no[0] % 100000}"
         self.capacity = capacity
@@ -149,6 +224,8 @@ class Machine:
             self.m = dataset.Manager(self.prefix, capacity)
         finally:
             dataset.disk.Disk = self._saved[3]
+        self.api = ViaServer(self.m) if via_server else self.m
+        self.via_server = via_server
         # model
         self.model: dict[str, dict] = {}  # key -> {state, size, gen, bytes, readers: {rdid: t}, delayed_purge}
         self.gen = 0
@@ -217,7 +294,7 @@ class Machine:
             free_before = self.model_free()
             evictable = sum(d["size"] for d in self.model.values() if d["state"] == "in_memory" and not d["readers"])
             try:
-                shmid, err = self.m.add(key, size, "deser")
+                shmid, err = self.api.add(key, size, "deser")
             except Exception as e:
                 self.breach("C08", "alloc-raises", f"allocate({key},{size}) raised {type(e).__name__}: {e}")
                 return
@@ -290,7 +367,7 @@ class Machine:
         except Exception:
             pass
         try:
-            self.m.close_callback(key, "")
+            self.api.close_callback(key, "")
             ok = True
         except Exception:
             ok = False
@@ -309,7 +386,7 @@ class Machine:
             free_before = self.model_free()
             evictable = sum(x["size"] for k2, x in self.model.items() if x["state"] == "in_memory" and not x["readers"] and k2 != key)
             try:
-                shmid, l, rdid, deser, err = self.m.get(key)
+                shmid, l, rdid, deser, err = self.api.get(key)
             except KeyError:
                 if d is not None:
                     self.breach("C09", "known-key-missing", f"get({key}) says unknown but the model has it in state {d['state']}")
@@ -381,7 +458,7 @@ class Machine:
         d = self.model.get(key)
         current = d is not None and d["gen"] == gen
         try:
-            self.m.close_callback(key, rdid)
+            self.api.close_callback(key, rdid)
             ok = True
         except Exception as e:
             ok = False
@@ -405,7 +482,7 @@ class Machine:
         key = KEYS[ki]
         d = self.model.get(key)
         try:
-            self.m.purge(key)
+            self.api.purge(key)
         except KeyError:
             if d is not None:
                 self.breach("C09", "known-key-missing", f"purge({key}) says unknown but the model has it in state {d['state']}")
@@ -578,7 +655,10 @@ class Machine:
             elif k == "clock":
                 self.op_clock(op[1])
             elif k == "free":
-                pass
+                if self.via_server:
+                    fs = self.api.free_space()
+                    if fs != self.m.free_space:
+                        self.breach("C08", "free-space-protocol", f"free-space query answers {fs}, the store has {self.m.free_space}")
             self.check(op)
             if self.breaches:
                 return
@@ -605,7 +685,7 @@ class Machine:
 
 
 def run_history(case: dict, known_f20: bool = False) -> Machine:
-    m = Machine(case["capacity"], known_f20)
+    m = Machine(case["capacity"], known_f20, bool(case.get("via_server")))
     try:
         m.run(case["ops"])
     finally:
